@@ -225,6 +225,15 @@ func doSet(pj *simdjson.ParsedJson, roots []*ref.Value, l Loc, op setOp, route i
 		if it.Type() != kindType(op.result()) {
 			return fmt.Sprintf("after %s the editing iterator reports type %v", op, it.Type()), true
 		}
+		if d := readBack(&it, op.result()); d != "" {
+			return fmt.Sprintf("after %s the editing iterator reads back something else: %s", op, d), true
+		}
+		// and through a freshly located iterator, including the cross-type numeric accessors
+		if fresh, err := locateInto(pj, l); err == nil {
+			if d := readBack(&fresh, op.result()); d != "" {
+				return fmt.Sprintf("after %s a fresh iterator reads back something else: %s", op, d), true
+			}
+		}
 		return "", true
 	}
 	if err == nil {
@@ -234,4 +243,59 @@ func doSet(pj *simdjson.ParsedJson, roots []*ref.Value, l Loc, op setOp, route i
 		return fmt.Sprintf("%s on a %v value returned an error but changed the document: %s", op, cur.K, d), false
 	}
 	return "", false
+}
+
+// readBack reads the value under it with the typed accessors and compares it with v.
+func readBack(it *simdjson.Iter, v *ref.Value) string {
+	var bad string
+	perr := walk.Guard(func() error {
+		switch v.K {
+		case ref.Null:
+			if it.Type() != simdjson.TypeNull {
+				bad = fmt.Sprintf("type %v, want null", it.Type())
+			}
+		case ref.True, ref.False:
+			b, err := it.Bool()
+			if err != nil || b != (v.K == ref.True) {
+				bad = fmt.Sprintf("Bool()=%v,%v", b, err)
+			}
+		case ref.Int:
+			x, err := it.Int()
+			if err != nil || x != v.I {
+				bad = fmt.Sprintf("Int()=%d,%v want %d", x, err, v.I)
+			}
+		case ref.Uint:
+			x, err := it.Uint()
+			if err != nil || x != v.U {
+				bad = fmt.Sprintf("Uint()=%d,%v want %d", x, err, v.U)
+			}
+		case ref.Float:
+			x, fl, err := it.FloatFlags()
+			if err != nil || math.Float64bits(x) != math.Float64bits(v.F) {
+				bad = fmt.Sprintf("FloatFlags()=%v,%v want %v", x, err, v.F)
+			} else if uint64(fl) != 0 {
+				bad = fmt.Sprintf("FloatFlags() reports flags %#x on a value written by SetFloat", uint64(fl))
+			}
+		case ref.String:
+			b, err := it.StringBytes()
+			if err != nil || !bytes.Equal(b, v.S) {
+				bad = fmt.Sprintf("StringBytes()=%.40q,%v", b, err)
+			}
+		}
+		if bad == "" {
+			bad = convCheck(it, v)
+		}
+		if bad == "" && (v.K != ref.Null) {
+			if s, err := it.StringCvt(); err != nil {
+				bad = fmt.Sprintf("StringCvt() fails: %v", err)
+			} else if v.K == ref.String && s != string(v.S) {
+				bad = "StringCvt() differs from the string"
+			}
+		}
+		return nil
+	})
+	if perr != nil {
+		return perr.Error()
+	}
+	return bad
 }
